@@ -416,6 +416,7 @@ end real
   min a b := min a b
   max a b := max a b
   fmod a b := a - b * (if a / b < 0 then (⌈a / b⌉ : ℝ) else (⌊a / b⌋ : ℝ))
+  pi := Real.pi
 
 theorem realScalar_lawful : @LawfulScalar ℝ _ _ _ _ realScalar :=
   letI := realScalar
